@@ -7,12 +7,16 @@ THEOREMS = {
             "popularity_normalised", "fit_ends_with_normalize", "partialFit_ends_with_normalize",
             "stat_greedy", "stat_ucb", "stat_softmax", "stat_thompson", "stat_popularity", "stat_random",
             "fitRec_append", "parallelFitIn_closed"],
+    "C02": ["lin_statistics", "stat_linear", "gram_accumulates", "k1_counterexample", "k1_lambda_one", "linucb_columns",
+            "reshape_rowwise", "squeeze_counterexample", "fitRec_append"],
     "C03": ["radius_exact", "euclid_via_squares", "knn_override_valid", "nanInv_init", "nanInv_addArm", "nanInv_removeArm",
             "empty_nhood_exps", "nhood_from_scratch", "fit_discards"],
     "C05": ["partition_exact_cover", "effectiveJobs_bounds", "splitBySizes_flatten", "chunked_map", "predict_any_partition",
             "fit_tasks_commute", "parallelFitIn_closed", "Py.Dict.foldl_modify"],
     "C06": ["incremental_eq_batch", "spec_chunked", "rowsOf_append", "fitRec_append", "first_partial_is_fit", "neighbors_history"],
     "C07": ["fit_discards", "resetFor_congr", "sameConfig_fresh", "fit_after_history_eq_fresh"],
+    "C08": ["keys_eq_arms", "added_immediately", "removed_never_returns", "arms_unchanged_by_training", "unwrap_shape",
+            "predictExp_keys", "predict_mem", "argmaxFirst_mem", "draw_length", "chunk_rows"],
     "C09": ["argmax_first", "foldMax_spec", "argmaxFirst_mem", "predict_eq_argmax", "leWith_val"],
     "C10": ["predictExp_readonly", "predict_readonly", "impPredict_readonly", "query_readonly"],
     "C11": ["hash_scale_invariant", "vecMul_scale", "hash_zero_projection", "planes_fixed_at_fit", "lsh_partial_hist",
@@ -28,10 +32,12 @@ THEOREMS = {
 
 IMPORTS = {
     "C01": ["MabModel.Props.C01"],
+    "C02": ["MabModel.Props.C02"],
     "C03": ["MabModel.Props.C03"],
     "C05": ["MabModel.Props.C05"],
     "C06": ["MabModel.Props.C06"],
     "C07": ["MabModel.Props.C07"],
+    "C08": ["MabModel.Props.C08"],
     "C09": ["MabModel.Props.C09"],
     "C10": ["MabModel.Props.C10"],
     "C11": ["MabModel.Props.C11"],
